@@ -1,5 +1,95 @@
-"""(stub)"""
+"""A-PY / A-SFC: assumed contracts for stdlib and connector calls made by the functions under contract."""
+from __future__ import annotations
+
+import os
+import re
+
+import z3
+
+from pyvc.sorts import B, CLS, I, NONE, S, V, mkb, mki, mkr, mks
+from pyvc.spec import _NO, concrete_of
+from pyvc.state import Val, arr_lit, fresh_name
+from pyvc.types import DictT, ListT, NoneType, Opt, TupleT
+from pyvc.world import ClassSchema, Unsupported
 
 
 def install(w):
-    pass
+    H = w.handlers
+    w.classes.add(re.Match)
+    w.schemas[re.Match] = ClassSchema(re.Match, fields={})
+
+    A_RE = "A-PY re.search/re.match: evaluated with the real `re` module when pattern and subject are literals; otherwise an unconstrained Optional[Match] whose groups are strings"
+
+    def _re_call(kind):
+        real = getattr(re, kind)
+
+        def h(ex, st, args, kw, node):
+            pat, subj = args[0], args[1]
+            flags = args[2] if len(args) > 2 else kw.get("flags")
+            cp, cs = concrete_of(pat), concrete_of(subj)
+            fl = 0
+            if flags is not None:
+                if isinstance(flags.py, (int, re.RegexFlag)):
+                    fl = int(flags.py)
+                else:
+                    cf = concrete_of(flags)
+                    if cf is _NO:
+                        cp = _NO
+                    else:
+                        fl = cf
+            if cp is not _NO and cs is not _NO:
+                m = real(cp, cs, fl)
+                if m is None:
+                    return Val(NONE, NoneType)
+                obj = ex.new_object(st, re.Match)
+                groups = [w.const(m.group(0))] + [w.const(g) for g in m.groups()]
+                oid = V.rid(obj.t)
+                st.heap["$len"] = z3.Store(st.arr("$len"), oid, z3.IntVal(len(groups)))
+                st.heap["$el"] = z3.Store(st.arr("$el"), oid, arr_lit([g.t for g in groups]))
+                return obj
+            ex.trusted_used.add(A_RE)
+            matched = ex.fresh("re_matched", B)
+            obj = ex.new_object(st, re.Match)
+            oid = V.rid(obj.t)
+            n = ex.fresh("re_ngroups", I)
+            st.assume(n >= 1)
+            st.heap["$len"] = z3.Store(st.arr("$len"), oid, n)
+            arr = ex.fresh("re_groups", z3.ArraySort(I, V))
+            j = z3.Int(fresh_name("rg"))
+            st.assume(z3.ForAll([j], z3.Or(V.is_s(arr[j]), V.is_none(arr[j]))))
+            st.assume(V.is_s(arr[0]))
+            st.heap["$el"] = z3.Store(st.arr("$el"), oid, arr)
+            return Val(z3.If(matched, obj.t, NONE), Opt(re.Match))
+
+        return h
+
+    H["re.search"] = _re_call("search")
+    H["re.match"] = _re_call("match")
+
+    def match_getitem(ex, st, args, kw, node):
+        m, idx = args
+        oid = ex.as_ref(st, m, node)
+        i = ex.as_int(st, idx, node)
+        n = st.arr("$len")[oid]
+        ex.raise_if(st, z3.Or(i < 0, i >= n), IndexError, node)
+        v = Val(z3.simplify(st.arr("$el")[oid][i]), None)
+        cv = concrete_of(v)
+        if cv is not _NO:
+            return w.const(cv)
+        return v
+
+    H["re.Match.__getitem__"] = match_getitem
+
+    def match_group(ex, st, args, kw, node):
+        m = args[0]
+        idx = args[1] if len(args) > 1 else w.const(0)
+        return match_getitem(ex, st, [m, idx], {}, node)
+
+    H["re.Match.group"] = match_group
+
+    # os.environ.get: any string or None, no effect (extraction abstracts the environment, DESIGN 2.4)
+    def environ_get(ex, st, args, kw, node):
+        return ex.fresh_val("env", Opt(str), st)
+
+    H["os._Environ.get"] = environ_get
+    w.classes.add(type(os.environ))
